@@ -7,25 +7,27 @@ UNITS = {
     "spec": [TF],
     "handle_a": [TF], "handle_b": [TF], "handle_b2": [TF], "handle_c": [TF],
     "logger": [TF],
+    "flw": [()],
+    "handle": [()],
     "naming": [()],
     "listing": [()],
 }
 
 # property -> list of (unit, features)
 PROP_UNITS = {
-    "C01": [("state", ())],
+    "C01": [("state", ()), ("handle", ())],
     "C02": [("spec", TF), ("logger", TF), ("handle_c", TF)],
-    "C04": [("state", ())],
+    "C04": [("state", ()), ("handle", ()), ("flw", ())],
     "C05": [("handle_a", TF), ("handle_b", TF), ("handle_b2", TF), ("handle_c", TF), ("spec", TF)],
     "C06": [("state", ())],
     "C07": [("state", ()), ("listing", ())],
     "C08": [("state", ())],
     "C09": [("state", ())],
-    "C13": [("logger", TF)],
+    "C13": [("logger", TF), ("flw", ())],
     "C14": [("state", ()), ("listing", ()), ("naming", ())],
-    "C15": [("state", ())],
+    "C15": [("state", ()), ("handle", ()), ("flw", ())],
     "C16": [("naming", ()), ("listing", ()), ("state", ())],
-    "C18": [("state", ())],
+    "C18": [("state", ()), ("handle", ())],
     "C19": [("state", ()), ("logger", TF)],
 }
 
